@@ -128,6 +128,12 @@ def _edges(desc):
         # Reshape whose newshape holds array-valued components: m itself, and
         # two equal but distinct derived expressions (shape of a slice)
         outs["expand_sym"] = pt.expand_dims(p, 0) * 2
+        # a data wrapper whose shape is symbolic (its shape is a field that
+        # copying mappers must map like everyone else's)
+        dw = (pt.make_placeholder("dwp", (m,), np.float64)
+              if desc.get("no_data")
+              else pt.make_data_wrapper(np.arange(4.0), shape=(m,)))
+        outs["dw_sym"] = dw * 2
         if not desc.get("dup"):
             # (with deliberate duplicates nodes are identified by equality,
             # and the slice's freshly computed shape would be taken for the
@@ -152,6 +158,15 @@ def _edges(desc):
                                                   stapled_to=xf * 2)
         outs["send2"] = pt.staple_distributed_send(xf, dest_rank=1, comm_tag=8,
                                                    stapled_to=s)
+    if "send" in kinds and desc.get("dup"):
+        # a duplicate that is reachable only through a send payload
+        # (in both orders of traversal)
+        outs["send_dup_payload"] = pt.staple_distributed_send(
+            (xf + 7) * 1, dest_rank=1, comm_tag=11, stapled_to=xf * 5)
+        outs["send_dup_other"] = (xf + 7) * 2
+        outs["a_first"] = (xf + 9) * 2
+        outs["z_payload_later"] = pt.staple_distributed_send(
+            (xf + 9) * 1, dest_rank=1, comm_tag=12, stapled_to=xf * 6)
     if "send" in kinds:
         # payload and pass-through are one and the same node
         xf3 = xf * 3
@@ -215,6 +230,6 @@ def env(desc):
             "n": 3, "i0": np.array([1, 6, 3, 8], dtype=np.int32),
             "xf": np.array([0.5, 1.5, -2.0, 4.0]),
             "p": np.arange(16.0).reshape(4, 4), "q": np.arange(4.0),
-            "y3": np.arange(32.0).reshape(4, 4, 2),
+            "y3": np.arange(32.0).reshape(4, 4, 2), "dwp": np.arange(4.0),
             "ev": np.array([1.0, 2.0, 3.0, 4.0]),
             "rs": np.array([0, 2, 4], dtype=np.int32)}
